@@ -197,21 +197,25 @@ def selection(ctx):
 
 
 def hashseed_determinism(ctx, names):
-    """Selection by name in two fresh interpreters with different PYTHONHASHSEED."""
+    """Selection by name in fresh interpreters with different PYTHONHASHSEED and a different order of calls
+    (the second interpreter walks the names backwards and asks for the operations in reverse order: the
+    format chosen for (name, operation) must not depend on which selections were made before)."""
     code = (
-        "import json,sys\n"
+        "import json,sys,os\n"
         "from iodata.api import _select_format_module\n"
         "from iodata.utils import FileFormatError\n"
         "names=json.load(sys.stdin)\nout={}\n"
+        "ops=('load_one','load_many','dump_one','dump_many')\n"
+        "if os.environ.get('VERIF_REVERSE'): names=names[::-1]; ops=ops[::-1]\n"
         "for n in names:\n"
-        "  for op in ('load_one','load_many','dump_one','dump_many'):\n"
+        "  for op in ops:\n"
         "    try: out[n+'|'+op]=_select_format_module(n,op,None).__name__.rsplit('.',1)[-1]\n"
         "    except FileFormatError: out[n+'|'+op]='ERROR'\n"
         "print(json.dumps(out,sort_keys=True))\n"
     )
     results = []
-    for hs in ("1", "12345"):
-        env = dict(os.environ, PYTHONHASHSEED=hs)
+    for hs, rev in (("1", ""), ("12345", "1")):
+        env = dict(os.environ, PYTHONHASHSEED=hs, VERIF_REVERSE=rev)
         r = subprocess.run([sys.executable, "-c", code], input=json.dumps(names), capture_output=True, text=True, env=env, check=False)
         if r.returncode != 0:
             raise SystemExit("HARNESS-ERROR: subprocess failed: " + r.stderr[-500:])
@@ -286,6 +290,53 @@ def guaranteed_worker(chunk, seed, tier):
     return part.result()
 
 
+def generated_worker(chunk, seed, tier):
+    """Guaranteed attributes on files produced by the independent writers of C03 (all cases with <= 1 deviation)."""
+    import shutil
+    import warnings
+
+    from iodata import load_many, load_one
+    from iodata.api import FORMAT_MODULES
+    from mc.core import Part, make_scratch
+    from props import c03
+
+    part = Part(seed, tier)
+    tmp = make_scratch()
+    fmts = {f.name: f for f in c03.FORMATS}
+    try:
+        for name, case in chunk:
+            f = fmts[name]
+            fname, text, _exp, kw = f.make(case, seed)
+            path = str(tmp / fname)
+            with open(path, "w") as fh:
+                fh.write(text)
+            for op in ("load_one", "load_many"):
+                m = FORMAT_MODULES[name]
+                if not hasattr(m, op):
+                    continue
+                part.count()
+                with warnings.catch_warnings():
+                    warnings.simplefilter("ignore")
+                    try:
+                        objs = [load_one(path, **kw)] if op == "load_one" else list(load_many(path, **kw))
+                    except Exception:  # noqa: BLE001
+                        continue
+                part.nontrivial(("generated", name, op, repr(sorted(case.items(), key=lambda kv: kv[0]))))
+                for obj in objs[:3]:
+                    for a in getattr(m, op).guaranteed:
+                        v = getattr(obj, a, "missing-attribute")
+                        ok = v is not None
+                        part.outcome("guaranteed-generated", "set" if ok else "MISSING")
+                        if not ok:
+                            from mc import dbe
+
+                            part.violation("guaranteed", f"guaranteed:{name}.{op}:{a}", {"format": name, "operation": op, "attribute": a, "case": dbe.dev_str(f.space, case)},
+                                           f"{name}.{op} guarantees {a!r} but a well-formed generated file [{dbe.dev_str(f.space, case)}] loads with {a} = None")
+    finally:
+        shutil.rmtree(tmp, ignore_errors=True)
+    return part.result()
+
+
 def corpus_files():
     from iodata.api import _select_format_module
 
@@ -317,13 +368,19 @@ def run(ctx):
     declarations(ctx)
     files = corpus_files()
     pmap(ctx, guaranteed_worker, files, chunk=2)
+    from mc import dbe
+    from props import c03
+
+    gen = [(f.name, case) for f in c03.FORMATS for case in dbe.cases(f.space, 1) if int(case.get("natom", 0) or 0) <= 1000]
+    pmap(ctx, generated_worker, gen, chunk=8)
+    ctx.cov["generated_files_loaded"] = len(gen)
     ctx.cov["corpus_files_loaded"] = len(files)
     ctx.exhaustive = True
     ctx.rule = (
         "full product: every file name built from every pattern of every format module (stem variants, upper/lower case, suffix/prefix added, directory prefix, directory carrying the pattern) plus 45 hand-picked "
         "ambiguous names x 4 operations x explicit format in {None, each module, 'unknown', '', 'XYZ'}, judged by an independent matcher; the same through the public API with recording stubs and a "
-        "file-system audit hook; selection table compared across 3 interpreters (PYTHONHASHSEED 0/1/12345); every declared attribute name against the IOData attribute set; every guaranteed "
-        "attribute on every successfully loaded corpus file (load_one and load_many). Distinct = (name, operation, format)."
+        "file-system audit hook; selection table compared across 3 interpreters (PYTHONHASHSEED 0/1/12345, the last one issuing the calls in reverse order); every declared attribute name against the IOData attribute set; every guaranteed "
+        "attribute on every successfully loaded corpus file and on every file produced by the independent writers of C03 with <= 1 deviation (load_one and load_many). Distinct = (name, operation, format)."
     )
     ctx.assumptions += ["patterns and supported operations are read from the modules (they are the declarations under test); matching and decision logic are re-implemented",
                         "an empty dict counts as 'set' for dictionary-valued attributes"]
